@@ -422,7 +422,13 @@ func (m *emitModel) hooks() Hooks {
 			f := st.clone()
 			p.epoch++
 			p.prevTyp = unknownV()
-			p.trace = append(p.trace, "adv")
+			adv := "adv"
+			if role == "match" && len(args) == 1 && args[0].K == vConst {
+				if v, ok := constant.Int64Val(args[0].C); ok && constNameOf(m.toks, v) == "tSEMICOLON" {
+					adv = "semi" // the optional statement terminator: not part of any statement form
+				}
+			}
+			p.trace = append(p.trace, adv)
 			return []valState{{st, constV(constant.MakeBool(true))}, {f, constV(constant.MakeBool(false))}}, true
 		case role == "check", role == "checkEnd":
 			return one(st, unknownV()), true
